@@ -116,11 +116,21 @@ def fields(manifest):
     return "\n".join(out) + "\n", names
 
 
+CTOR_BODY = ""
+
+
 def ctor_items(manifest):
     """[(member, initialiser text)] of the constructor's mem-initialiser list"""
     src = Source("hexsim.hpp", manifest)
-    t = src.span(r"Processor\(std::istream &in, std::ostream &out, size_t maxCycles=0\) :\s*(.*?\))\s*\{\}", "Processor::Processor initialiser list", 1)
-    t = strip_comments(t)
+    a, e = src.anchor(r"Processor\(std::istream &in, std::ostream &out, size_t maxCycles=0\) :")
+    lb = src.text.index("{", e)
+    # the body's opening brace is the first `{` that is not the brace of a braced member initialiser `name{...}`
+    while re.search(r"\w\s*$", src.text[e:lb]) and not re.search(r"\)\s*$", src.text[e:lb]):
+        lb = src.text.index("{", match_close(src.text, lb) + 1)
+    rb = match_close(src.text, lb)
+    global CTOR_BODY
+    CTOR_BODY = strip_comments(src.text[lb + 1:rb]).strip()
+    t = strip_comments(src.text[e:lb])
     items = []
     i = 0
     while i < len(t):
@@ -156,7 +166,22 @@ def ctor_inits(manifest):
                 raise ExtractionError("ctor init %s(%s): unexpected initialiser" % (n, v))
             asg.append("%s = %s;" % (n, v))
         inited.append(n)
-    manifest.append({"unit": "Processor ctor", "initialised": inited})
+    # constructor body: only whole-array clears of `memory` are understood
+    for st in [x.strip() for x in CTOR_BODY.split(";") if x.strip()]:
+        st = " ".join(st.split())
+        mb = re.fullmatch(r"std::memset\(memory\.data\(\), 0, ([\w\s*()]+)\)", st)
+        if mb:
+            n = mb.group(1).replace("sizeof(memory)", "(4 * (size_t)MEMORY_SIZE_WORDS)").replace("sizeof(uint32_t)", "4")
+            if not re.fullmatch(r"[\w\s*()]+", n) or re.search(r"[A-Za-z_]\w*", n.replace("MEMORY_SIZE_WORDS", "").replace("size_t", "")):
+                raise ExtractionError("ctor body: memset size %r not understood" % mb.group(1))
+            asg.append("MEM_ZERO_BYTES(%s); /* std::memset(memory.data(), 0, %s) */" % (n, mb.group(1)))
+            inited.append("memory")
+        elif st in ("memory.fill(0)", "memory.fill(0u)", "memory.fill(0U)"):
+            asg.append("MEM_ZERO(); /* memory.fill(0) */")
+            inited.append("memory")
+        else:
+            raise ExtractionError("ctor body: statement not understood: %r" % st)
+    manifest.append({"unit": "Processor ctor", "initialised": inited, "body": CTOR_BODY})
     return "static void Processor_ctor(size_t maxCycles_arg) {\n  " + "\n  ".join(asg) + "\n}\n", inited
 
 
